@@ -161,9 +161,17 @@ pub fn run_history(ops: &[Op]) -> (u64, u64, Vec<Divergence>) {
                         continue;
                     }
                     rs.pos = rs.pos.make(*m);
-                    // the 16-bit counters stay at their limit
-                    rs.pos.half = rs.pos.half.min(65535);
-                    rs.pos.full = rs.pos.full.min(65535);
+                    // beyond the 16-bit limit the rules' value cannot be represented and no property says
+                    // what the counter does there: the reference follows the implementation from then on
+                    {
+                        let now = eng.board();
+                        if rs.pos.half >= 65535 {
+                            rs.pos.half = now.half_move_clock() as u32;
+                        }
+                        if rs.pos.full >= 65535 {
+                            rs.pos.full = now.full_move_clock() as u32;
+                        }
+                    }
                     let c = rs.seen.entry(rs.pos.identity()).or_insert(0);
                     *c += 1;
                     let want_flag = *c == 3;
